@@ -116,8 +116,9 @@ func runC03(c *Ctx) {
 	}
 	c.Rule("C03.W", "writer types do not grow optional net/http interfaces", 4)
 	ruleWriterMethodSets(c, p, "C03.W")
-	c.Rule("C03.S", "status and body pass through the wrappers and the proxy unchanged", 10)
+	c.Rule("C03.S", "status and body pass through the wrappers and the proxy unchanged", 12)
 	ruleStatusBodyPassThrough(c, p, "C03.S")
+	ruleBodyStreamEndsCleanly(c, p, "C03.S")
 }
 
 // ---- C03.T
@@ -835,4 +836,51 @@ func globalWrittenOnlyByInit(p *Prog, g *ssa.Global) bool {
 		})
 	}
 	return ok
+}
+
+// ruleBodyStreamEndsCleanly: the streaming writer ends the body it relays exactly as the
+// handler ended it. Close closes the write end of the body pipe on every path, and nothing
+// in agent/utils closes that end with an error of its own making: a writer that second-guesses
+// the response (a Content-Length it thinks was not met, a size it thinks is too large) turns a
+// complete backend response — a 304 with Content-Length, a HEAD-like answer — into an aborted
+// upload, and the client never sees its status and headers.
+func ruleBodyStreamEndsCleanly(c *Ctx, p *Prog, rule string) {
+	f := c.need(p, rule, "agent/utils.(*streamingResponseWriter).Close")
+	if f == nil {
+		return
+	}
+	isBodyWriter := func(v ssa.Value) bool {
+		_, fld, ok := FieldLoad(v)
+		return ok && fld == "bodyWriter"
+	}
+	cleanClose := func(i ssa.Instruction) bool {
+		cc := CallOf(i)
+		if cc == nil {
+			return false
+		}
+		switch CalleeName(cc) {
+		case "(*io.PipeWriter).Close":
+			return isBodyWriter(PArgs(cc)[0])
+		case "(*io.PipeWriter).CloseWithError":
+			return isBodyWriter(PArgs(cc)[0]) && IsNilConst(PArgs(cc)[1])
+		}
+		return false
+	}
+	hit, path := (&Walk{Target: IsReturn, Avoid: cleanClose, Ctx: f}).FromBlock(f.Blocks[0])
+	c.Check(rule, "streaming-writer:Close-ends-the-body", p, f.Pos(), hit == nil, "every path of Close closes the write end of the body pipe without an error", "a path of streamingResponseWriter.Close returns without closing the body pipe cleanly ("+PathString(p, path)+"): the serialiser never sees the end of the body, or sees an error the handler did not produce")
+	bad := ""
+	n := 0
+	for _, fn := range p.AllFuncsIn("agent/utils") {
+		EachInstrRaw(fn, func(i ssa.Instruction) {
+			cc := CallOf(i)
+			if cc == nil || CalleeName(cc) != "(*io.PipeWriter).CloseWithError" {
+				return
+			}
+			n++
+			if isBodyWriter(PArgs(cc)[0]) && !IsNilConst(PArgs(cc)[1]) {
+				bad = FuncName(fn) + " at " + p.Pos(i.Pos())
+			}
+		})
+	}
+	c.Check(rule, "streaming-writer:no-self-made-body-error", p, f.Pos(), bad == "", fmt.Sprintf("%d PipeWriter.CloseWithError call(s) in agent/utils: none aborts the relayed body with an error of the writer's own", n), "the write end of the relayed body is closed with an error by "+bad+": a response the backend completed (e.g. 304 or HEAD-like with Content-Length, a short body) reaches the proxy as an aborted upload and the client gets no status, headers or body")
 }
